@@ -76,11 +76,53 @@ def col_kinds(dm):
     return [(name, world.kind_of(col)) for name, col in dm._cols.items()]
 
 
+def plan_merge(rng, r):
+    """Directed multi-step plans for the merge operators (returned as a list of operations):
+    balanced-xor -- two overlapping slices a, b of one table with |b - a| = |a & b| > 0, then a ^ b (and the other
+                    operators): the result is as long as the left operand although rows come from the right one;
+    none-left    -- two overlapping relatives, None written into a shared row of a MixedColumn of the LEFT one (another
+                    value into the right one), then the merges: the left cell wins even when it is None."""
+    P = r.pool
+    cands = [i for i, q in enumerate(P) if len(q) >= 4]
+    if not cands:
+        return None
+    ti = rng.choice(cands)
+    n = len(P[ti])
+    base = len(P)
+    if rng.random() < 0.5:
+        m = rng.randint(1, n // 3) if n >= 3 else 1
+        i0 = rng.randint(0, max(0, n - 3 * m))
+        ops = [{'op': 'slice', 't': ti, 'a': i0, 'b': i0 + 2 * m}, {'op': 'slice', 't': ti, 'a': i0 + m, 'b': i0 + 3 * m}]
+        seq = [('MXor', base, base + 1), ('MOr', base, base + 1), ('MXor', base + 1, base)]
+        rng.shuffle(seq)
+        return ops + [{'op': 'merge', 'mop': mo, 't': a, 't2': b} for mo, a, b in seq[:2]]
+    mixed = [nm for nm, kd in col_kinds(P[ti]) if kd == 'KMixed']
+    if not mixed:
+        return None
+    name = rng.choice(mixed)
+    ops = [{'op': 'slice', 't': ti, 'a': 0, 'b': n - 1}, {'op': 'slice', 't': ti, 'a': 1, 'b': n}]
+    # row 1 of the source is row 1 of the first and row 0 of the second relative
+    ops.append({'op': 'setcell', 't': base, 'name': name, 'addr': {'k': 'int', 'i': 1},
+                'rhs': {'k': 'scalar', 'v': pyobs.enc(None)}})
+    ops.append({'op': 'setcell', 't': base + 1, 'name': name, 'addr': {'k': 'int', 'i': 0},
+                'rhs': {'k': 'scalar', 'v': pyobs.enc(rng.choice(['v', 5, 2.5]))}})
+    mo = rng.choice(['MOr', 'MAnd'])
+    return ops + [{'op': 'merge', 'mop': mo, 't': base, 't2': base + 1}, {'op': 'merge', 'mop': 'MOr', 't': base + 1, 't2': base}]
+
+
 def gen_op(rng, r, weights, bad_rate=0.08, max_pool=7, max_rows=9):
     """Choose the next operation given the runner's live pool."""
     P = r.pool
     if not P:
         return {'op': 'new', 'n': rng.randint(0, 6)}
+    plan = getattr(r, 'plan', None)
+    if plan:
+        return plan.pop(0)
+    if weights.get('merge', 0) >= 10 and len(P) + 3 <= max_pool and rng.random() < 0.12:
+        made = plan_merge(rng, r)
+        if made:
+            r.plan = made[1:]
+            return made[0]
     for _attempt in range(50):
         k = rng.choices(list(weights.keys()), list(weights.values()))[0]
         ti = rng.randrange(len(P))
@@ -131,7 +173,7 @@ def gen_op(rng, r, weights, bad_rate=0.08, max_pool=7, max_rows=9):
             if form == 'list':
                 if n == 0:
                     continue
-                if rng.random() < 0.3:
+                if rng.random() < (0.5 if kind != 'KMixed' else 0.3):
                     # every row once, in some order: with a column-valued right-hand side (often the target itself)
                     l = rng.sample(range(n), n)
                     rhs = gen_col_rhs(rng, P, ti, name, n) if rng.random() < 0.7 else None
@@ -172,6 +214,14 @@ def gen_op(rng, r, weights, bad_rate=0.08, max_pool=7, max_rows=9):
         if k == 'getrows':
             if n == 0:
                 continue
+            if n >= 4 and rng.random() < 0.3:
+                # every row, the first and the last in place, the interior permuted: a contiguous id range whose end
+                # points look untouched (fast paths keyed on the end points!)
+                mid = list(range(1, n - 1))
+                rng.shuffle(mid)
+                if mid == list(range(1, n - 1)):
+                    mid.reverse()
+                return {'op': 'getrows', 't': ti, 'l': [0] + mid + [n - 1]}
             l = rng.sample(range(n), rng.randint(1, min(n, 4)))
             l = [i - n if rng.random() < 0.2 else i for i in l]
             if len(set(x % n for x in l)) != len(l):
